@@ -43,6 +43,9 @@ pub enum BCall {
     Flag(u8, bool),
     /// wholesale replacement (raw bits, truncated to defined flags by the library type)
     Flags(u16),
+    /// wholesale replacement keeping every bit (IsiFlags::from_bits_retain): bits without a
+    /// name are reserved / future ISF flags and travel unchanged
+    FlagsRetain(u16),
     Prefix(Option<u8>),
     IntervalMs(Option<u32>),
     Iname(Option<String>),
@@ -151,6 +154,7 @@ fn model_of(calls: &[BCall]) -> ModelB {
                 }
             },
             BCall::Flags(bits) => m.flags = bits & DEFINED,
+            BCall::FlagsRetain(bits) => m.flags = *bits,
             BCall::Prefix(p) => m.prefix = *p,
             BCall::IntervalMs(i) => m.interval = *i,
             BCall::Iname(s) => m.iname = s.clone(),
@@ -185,7 +189,7 @@ fn to_lib_isi(m: &ModelIsi) -> Isi {
     Isi {
         reqi: RequestId(m.reqi),
         udpport: m.udpport,
-        flags: IsiFlags::from_bits_truncate(m.flags),
+        flags: IsiFlags::from_bits_retain(m.flags),
         version: m.version,
         prefix: m.prefix as char,
         interval: Duration::from_millis(m.interval_ms as u64),
@@ -232,6 +236,7 @@ fn apply(calls: &[BCall], remote: SocketAddr) -> insim::Builder {
                 _ => b.isi_flag_req_join(*on),
             },
             BCall::Flags(bits) => b.isi_flags(IsiFlags::from_bits_truncate(*bits)),
+            BCall::FlagsRetain(bits) => b.isi_flags(IsiFlags::from_bits_retain(*bits)),
             BCall::Prefix(p) => b.isi_prefix(p.map(|x| x as char)),
             BCall::IntervalMs(i) => b.isi_interval(i.map(|ms| Duration::from_millis(ms as u64))),
             BCall::Iname(s) => b.isi_iname(s.clone()),
@@ -311,6 +316,11 @@ fn gen_call(rng: &mut Rng) -> BCall {
         3 => BCall::VerifyVersion(rng.chance(1, 2)),
         4 => BCall::TcpNodelay(rng.chance(1, 2)),
         5..=12 => BCall::Flag(rng.below(10) as u8, rng.chance(2, 3)),
+        13 if rng.chance(1, 4) => BCall::FlagsRetain(match rng.below(3) {
+            0 => 0xFFFF,
+            1 => rng.next_u64() as u16,
+            _ => (rng.next_u64() as u16) | 0x9003,
+        }),
         13 => BCall::Flags(match rng.below(4) {
             0 => 0,
             1 => DEFINED,
@@ -416,7 +426,7 @@ impl C18 {
                 BCall::Compressed => 4,
                 BCall::Uncompressed => 5,
                 BCall::Flag(i, _) => 6 + (*i as u32 % 10),
-                BCall::Flags(_) => 16,
+                BCall::Flags(_) | BCall::FlagsRetain(_) => 16,
                 BCall::Prefix(_) => 17,
                 BCall::IntervalMs(_) => 18,
                 BCall::Iname(_) => 19,
@@ -440,6 +450,9 @@ impl C18 {
         }
         if matches!(sc.io, IoPart::Connect { .. }) && m.proto != 2 && sc.calls.iter().any(|c| matches!(c, BCall::Relay)) {
             rep.probe("connect_after_relay_selection");
+        }
+        if sc.calls.iter().any(|c| matches!(c, BCall::FlagsRetain(b) if b & !DEFINED != 0)) && sc.calls.iter().any(|c| matches!(c, BCall::Flag(..))) {
+            rep.probe("unnamed_flag_bits_with_single_flag_setters");
         }
         if sc.calls.iter().filter(|c| matches!(c, BCall::Flag(..))).count() >= 2 && sc.calls.iter().any(|c| matches!(c, BCall::Flags(_))) {
             rep.probe("flag_setters_and_wholesale_mixed");
@@ -763,6 +776,7 @@ impl Prop for C18 {
             "handshake_write_error",
             "handshake_after_refused_packet",
             "connect_after_relay_selection",
+            "unnamed_flag_bits_with_single_flag_setters",
             "connect_tcp_blocking",
             "connect_tcp_tokio",
             "connect_udp_blocking",
